@@ -71,3 +71,79 @@ theorem C13_rewards_sum_at_most_block_reward (r : Nat) (es : List Nat) : (split 
 example : split 1000 [30, 10, 10] = [600, 200, 200] ∧ split 5 [1000, 1] = [4, 1] := by decide
 
 end QuaiVerif.Reward
+
+namespace QuaiVerif.Reward
+
+theorem clampDelay_ge (lt noPen since : Nat) : noPen ≤ clampDelay lt noPen since := by
+  unfold clampDelay
+  by_cases h1 : since > lt
+  · simp only [h1, if_true]; split <;> omega
+  · simp only [h1, if_false]; split <;> omega
+
+theorem clampDelay_le (lt noPen since : Nat) (h : noPen ≤ lt) : clampDelay lt noPen since ≤ lt := by
+  unfold clampDelay
+  by_cases h1 : since > lt
+  · simp only [h1, if_true]; split <;> omega
+  · simp only [h1, if_false]; split <;> omega
+
+/-- the discounted reward never exceeds the undiscounted one -/
+theorem C13_time_discount_at_most_reward (liveSha live noPen pen div : Nat) (sha : Bool) (reward sigTime ts : Nat)
+    (hp : pen ≤ div) : timeDiscount liveSha live noPen pen div sha reward sigTime ts ≤ reward := by
+  unfold timeDiscount
+  simp only []
+  generalize (if sha = true then liveSha else live) = lt
+  have hs := clampDelay_ge lt noPen ((ts + 2 ^ 32 - sigTime % 2 ^ 32) % 2 ^ 32)
+  generalize clampDelay lt noPen ((ts + 2 ^ 32 - sigTime % 2 ^ 32) % 2 ^ 32) = s2 at hs
+  by_cases hz : div * (lt - noPen) = 0
+  · simp [hz]
+  · apply Nat.div_le_of_le_mul
+    have h : lt - s2 ≤ lt - noPen := by omega
+    have h1 : pen * (lt - noPen) + (div - pen) * (lt - s2) ≤ div * (lt - noPen) :=
+      calc pen * (lt - noPen) + (div - pen) * (lt - s2) ≤ pen * (lt - noPen) + (div - pen) * (lt - noPen) :=
+            Nat.add_le_add_left (Nat.mul_le_mul_left _ h) _
+        _ = (pen + (div - pen)) * (lt - noPen) := (Nat.add_mul _ _ _).symm
+        _ = div * (lt - noPen) := by rw [Nat.add_sub_cancel' hp]
+    calc reward * (pen * (lt - noPen) + (div - pen) * (lt - s2)) ≤ reward * (div * (lt - noPen)) := Nat.mul_le_mul_left _ h1
+      _ = div * (lt - noPen) * reward := Nat.mul_comm _ _
+
+/-- and never falls below the unlively share: `pen/div` of the reward -/
+theorem C13_time_discount_at_least_floor (liveSha live noPen pen div : Nat) (sha : Bool) (reward sigTime ts : Nat)
+    (hd : 0 < div) (hlt : noPen < (if sha then liveSha else live)) :
+    reward * pen / div ≤ timeDiscount liveSha live noPen pen div sha reward sigTime ts := by
+  unfold timeDiscount
+  simp only []
+  generalize (if sha = true then liveSha else live) = lt at hlt
+  generalize clampDelay lt noPen ((ts + 2 ^ 32 - sigTime % 2 ^ 32) % 2 ^ 32) = s2
+  have hr : 0 < lt - noPen := by omega
+  have : reward * pen / div = reward * pen * (lt - noPen) / (div * (lt - noPen)) := by
+    rw [Nat.mul_div_mul_right _ _ hr]
+  rw [this]
+  apply Nat.div_le_div_right
+  calc reward * pen * (lt - noPen) = reward * (pen * (lt - noPen)) := Nat.mul_assoc _ _ _
+    _ ≤ reward * (pen * (lt - noPen) + (div - pen) * (lt - s2)) := Nat.mul_le_mul_left _ (Nat.le_add_right _ _)
+
+/-- a share that is no later than the no-penalty threshold is paid in full -/
+theorem C13_time_discount_none_when_prompt (liveSha live noPen pen div : Nat) (sha : Bool) (reward sigTime ts : Nat)
+    (hp : pen ≤ div) (hd : 0 < div) (hlt : noPen < (if sha then liveSha else live))
+    (hprompt : (ts + 2 ^ 32 - sigTime % 2 ^ 32) % 2 ^ 32 ≤ noPen) :
+    timeDiscount liveSha live noPen pen div sha reward sigTime ts = reward := by
+  unfold timeDiscount
+  simp only []
+  generalize (if sha = true then liveSha else live) = lt at hlt
+  have hc : clampDelay lt noPen ((ts + 2 ^ 32 - sigTime % 2 ^ 32) % 2 ^ 32) = noPen := by
+    generalize (ts + 2 ^ 32 - sigTime % 2 ^ 32) % 2 ^ 32 = since at hprompt
+    unfold clampDelay
+    have h1 : ¬ since > lt := by omega
+    simp only [h1, if_false]
+    split <;> omega
+  rw [hc]
+  have : pen * (lt - noPen) + (div - pen) * (lt - noPen) = div * (lt - noPen) := by
+    rw [← Nat.add_mul, Nat.add_sub_cancel' hp]
+  rw [this, Nat.mul_comm]
+  exact Nat.mul_div_cancel_left _ (Nat.mul_pos hd (by omega))
+
+example : timeDiscount 30 18 3 70 100 true 1000000000 1000 1016 = 855555555 ∧
+          timeDiscount 30 18 3 70 100 false 1000000000 1000 1016 = 740000000 ∧
+          timeDiscount 30 18 3 70 100 true 1000000000 1000 1002 = 1000000000 := by decide
+
+end QuaiVerif.Reward
